@@ -25,6 +25,26 @@ var c09Bad = []badLine{
 	{"  - y: 12kg", 1, "12kg"},
 }
 
+// quotes: does msg quote the raw line and its 1-based number? (format-agnostic: the message must
+// contain the line verbatim and the number as a token of its own)
+func quotes(msg string, raw string, lineNo int) bool {
+	if !strings.Contains(msg, raw) {
+		return false
+	}
+	rest := strings.Replace(msg, raw, "", 1)
+	num := fmt.Sprint(lineNo)
+	for i := 0; i+len(num) <= len(rest); i++ {
+		if rest[i:i+len(num)] == num {
+			before := i == 0 || rest[i-1] < '0' || rest[i-1] > '9'
+			after := i+len(num) == len(rest) || rest[i+len(num)] < '0' || rest[i+len(num)] > '9'
+			if before && after {
+				return true
+			}
+		}
+	}
+	return false
+}
+
 func (b badLine) message(lineNo int) string {
 	if b.Kind == 0 {
 		return parser.NewErrorBadSyntax(lineNo, b.Text).Error()
@@ -87,6 +107,8 @@ func checkC09(w *Worker) {
 			raw := splitPhysical(text)
 			var out []string
 			var expect []string
+			var expLine []int
+			var expRaw []string
 			lineNo := 0
 			pi := 0
 			for i := range raw {
@@ -96,6 +118,8 @@ func checkC09(w *Worker) {
 					lineNo++
 					out = append(out, pl[pi].b.Text+eol)
 					expect = append(expect, pl[pi].b.message(lineNo))
+					expLine = append(expLine, lineNo)
+					expRaw = append(expRaw, pl[pi].b.Text)
 					pi++
 				}
 			}
@@ -120,6 +144,7 @@ func checkC09(w *Worker) {
 			}
 			x.Sample(map[string]interface{}{"role": role, "file": full, "expected_messages": expect})
 			if role == 2 {
+				lintFirst := ""
 				for _, silent := range []bool{false, true} {
 					args := []string{"lint"}
 					if silent {
@@ -136,18 +161,43 @@ func checkC09(w *Worker) {
 					if k == 0 && !silent {
 						want = "No errors found\n"
 					}
-					rep := map[string]interface{}{"cmd": c.shell(), "observed": r.String(), "expected_stdout": want}
+					rep := map[string]interface{}{"cmd": c.shell(), "observed": r.String(), "expected_stdout_with_current_wording": want}
 					if r.Panic != "" {
 						x.Violate("C09|lint|panic", fmt.Sprintf("`%s`: %s", c.shell(), r.String()), rep)
 						return
 					}
-					if r.Stdout != want {
-						kind := "wrong-messages"
-						if k > 0 && strings.HasPrefix(r.Stdout, want) && strings.Contains(r.Stdout[len(want):], "No errors found") {
-							kind = "no-errors-found-printed-after-errors"
+					got := splitLines(r.Stdout)
+					ok := true
+					kind := "wrong-messages"
+					if k == 0 {
+						ok = r.Stdout == want
+					} else {
+						if len(got) > k && strings.Contains(strings.Join(got[k:], "\n"), "No errors found") {
+							ok, kind = false, "no-errors-found-printed-after-errors"
+						} else if len(got) != k {
+							ok = false
+						} else {
+							for i := range got {
+								if !quotes(got[i], expRaw[i], expLine[i]) {
+									ok, kind = false, "message-does-not-quote-line-and-number"
+								}
+							}
 						}
-						x.Violate("C09|lint|"+kind, fmt.Sprintf("`%s`\nprinted:\n%s\nexpected:\n%s", c.shell(), r.Stdout, want), rep)
+					}
+					if !ok {
+						x.Violate("C09|lint|"+kind, fmt.Sprintf("`%s`\nprinted:\n%s\nexpected one message per malformed line, in file order, each quoting the raw line and its 1-based number; with the current wording:\n%s", c.shell(), r.Stdout, want), rep)
 						return
+					}
+					if k > 0 {
+						lintFirst = got[0]
+					}
+				}
+				if k > 0 {
+					// "with the same messages": what lint prints for the first malformed line is what a reading command fails with
+					c := appCase{Args: []string{"csv", "database"}, Files: map[string]string{"food.yaml": full}}
+					r := runApp(c)
+					if r.Failed && r.Panic == "" && r.Err != lintFirst {
+						x.Violate("C09|lint|message-differs-from-commands", fmt.Sprintf("lint prints %q for the first malformed line, `csv database` on the same file fails with %q", lintFirst, r.Err), nil)
 					}
 				}
 				return
@@ -173,8 +223,8 @@ func checkC09(w *Worker) {
 					x.Violate("C09|"+roleName+"|"+name+"|malformed-entry-not-reported", fmt.Sprintf("`%s` succeeded although line %q is malformed; expected error %q\nstdout:\n%s", c.shell(), pl[0].b.Text, expect[0], r.Stdout), rep)
 					continue
 				}
-				if r.Err != expect[0] {
-					x.Violate("C09|"+roleName+"|"+name+"|wrong-error", fmt.Sprintf("`%s` failed with %q, expected the message for the first malformed line: %q", c.shell(), r.Err, expect[0]), rep)
+				if !quotes(r.Err, expRaw[0], expLine[0]) {
+					x.Violate("C09|"+roleName+"|"+name+"|wrong-error", fmt.Sprintf("`%s` failed with %q, which does not quote the first malformed line %q and its number %d (with the current wording: %q)", c.shell(), r.Err, expRaw[0], expLine[0], expect[0]), rep)
 				}
 			}
 		}
